@@ -17,6 +17,8 @@ import core  # noqa: E402
 
 def reach(cfg, path):
     drv = core.Driver(cfg)
+    if cfg.warm:
+        drv.warm_up()
     for c in path:
         drv.apply(c)
     if cfg.rebuild:
